@@ -36,6 +36,42 @@ def vec(t):
     return [R(x) for x in t.data]
 
 
+def calc_framed(I, op, ctx, out):
+    """op.calculate(ctx) + ghost: names of attributes of the operation object written by the call"""
+    before = dict(op.attrs)
+    r = I.call(I.getattr(op, "calculate"), [ctx], {})
+    changed = sorted(k for k in set(op.attrs) | set(before) if op.attrs.get(k, None) is not before.get(k, None))
+    out.setdefault("state_changed", []).extend(changed)
+    return r
+
+
+def history(I, out, used, fresh, rng_last, atoms=None, k=3):
+    """only when calculate wrote something on the operation object: the used object and a fresh one with the same
+    parameters are run on the same context and the same draws"""
+    if not out.get("state_changed"):
+        return
+    script = [e[0] for e in rng_last.elems]
+    ctxA, _, at = make_ctx(I, k=k, script=list(script), atoms=atoms)
+    rA = I.call(I.getattr(used, "calculate"), [ctxA], {})
+    ctxB, _, _ = make_ctx(I, k=k, script=list(script), atoms=at)
+    rB = I.call(I.getattr(fresh, "calculate"), [ctxB], {})
+    out["hist"] = (rA, rB)
+
+
+def frame_ob(S, fq, i, v, p, tag=""):
+    """a proposal is a function of (parameters, context, draws): trivially so when calculate leaves the operation object
+    untouched; otherwise the used object must agree with a fresh one"""
+    name = f"{fq}#ensures.proposal_depends_on_parameters_context_and_draws_only{tag}@{i}"
+    if not v.get("state_changed"):
+        S.prove(name, True, kind="ensures")
+        return
+    rA, rB = v.get("hist", (None, None))
+    if not (isinstance(rA, Tensor) and isinstance(rB, Tensor) and rA.shape == rB.shape):
+        S.prove(name, False, kind="ensures", why=f"calculate wrote {v['state_changed']} on the operation object and a used object returns {rA!r} where a fresh one returns {rB!r}")
+        return
+    S.prove(name, z3.And([R(x) == R(y) for x, y in zip(rA.data, rB.data)]), hyps=p.pc, why=f"calculate wrote {v['state_changed']} on the operation object")
+
+
 def build(S, tier):
     meta = {"assumptions": [
         "group size of Translation/Rotation proofs is k=3 explicit rows (all coordinates, masses and the cell symbolic): bounded in k, unbounded in values",
@@ -51,15 +87,17 @@ def build(S, tier):
         I.path.assume(step.t > 0)
         ctx, rng, _ = make_ctx(I)
         op = I.call(I.get_class(OPS + "displacement." + cls), [step], {})
-        r1 = I.call(I.getattr(op, "calculate"), [ctx], {})
+        out = {}
+        r1 = calc_framed(I, op, ctx, out)
         el = [e[0] for e in rng.elems]
-        out = dict(step=step, r1=r1, el=list(rng.elems), draws=list(rng.draws))
+        out.update(step=step, r1=r1, el=list(rng.elems), draws=list(rng.draws))
         if involute:
             script, side = involute(I, el, step)
             for h in side:
                 I.path.assume(h)
             ctx2, rng2, _ = make_ctx(I, script=script)
-            out["r2"] = I.call(I.getattr(op, "calculate"), [ctx2], {})
+            out["r2"] = calc_framed(I, op, ctx2, out)
+        history(I, out, op, I.call(I.get_class(OPS + "displacement." + cls), [step], {}), rng)
         return out
 
     def inv_box(I, el, step):
@@ -84,6 +122,7 @@ def build(S, tier):
                 S.prove(f"{fq}#noraise@{i}", False, kind="noraise", why=f"raises {p.exc!r}")
                 continue
             v = p.value
+            frame_ob(S, fq, i, v, p)
             r1, s = v["r1"], v["step"].t
             okshape = isinstance(r1, Tensor) and r1.shape == (1, 3)
             S.prove(f"{fq}#ensures.shape_1x3@{i}", okshape, kind="ensures", why=f"result {r1!r}")
@@ -116,8 +155,12 @@ def build(S, tier):
         ctx, rng, atoms = make_ctx(I, k=k)
         I.path.assume(R(atoms.cell.volume(I)) > 0)
         op = I.call(I.get_class(OPS + "displacement." + cls), [], {})
-        r = I.call(I.getattr(op, "calculate"), [ctx], {})
-        return dict(r=r, atoms=atoms, rng=rng, k=k)
+        out = {}
+        r = calc_framed(I, op, ctx, out)
+        elems = list(rng.elems)
+        history(I, out, op, I.call(I.get_class(OPS + "displacement." + cls), [], {}), rng, atoms=atoms, k=k)
+        rng.elems = elems
+        return dict(out, r=r, atoms=atoms, rng=rng, k=k)
 
     def new_positions(I, v):
         at, r, k = v["atoms"], v["r"], v["k"]
@@ -153,6 +196,7 @@ def build(S, tier):
                 S.prove(f"{fq}#noraise@{i}", False, kind="noraise", why=f"raises {p.exc!r}")
                 continue
             v = p.value
+            frame_ob(S, fq, i, v, p)
             r, at, k, rng = v["r"], v["atoms"], v["k"], v["rng"]
             okshape = isinstance(r, Tensor) and r.ndim == 2 and r.shape[1] == 3 and r.shape[0] in (1, k)
             S.prove(f"{fq}#ensures.shape@{i}", okshape, kind="ensures", why=f"result {r!r}")
@@ -273,15 +317,17 @@ def build(S, tier):
             mask = Tensor((3, 3), [I.path.fresh(f"mask{i}{j}", "bool") for i in range(3) for j in range(3)], "bool")
         ctx, rng, _ = make_ctx(I)
         op = I.call(I.get_class(OPS + "cell." + cls), [mx], {"mask": mask} if masked else {})
-        F1 = I.call(I.getattr(op, "calculate"), [ctx], {})
+        out = {}
+        F1 = calc_framed(I, op, ctx, out)
         expm = I.loader.models["scipy.linalg"].attrs["expm"]
-        out = dict(F1=F1, mx=mx, mask=mask, el=list(rng.elems), draws=list(rng.draws), expm_args=[A for A, _ in expm.calls])
+        out.update(F1=F1, mx=mx, mask=mask, el=list(rng.elems), draws=list(rng.draws), expm_args=[A for A, _ in expm.calls])
         if involute and not masked:
             el = [e[0] for e in rng.elems]
             for e in el:
                 I.path.assume(R(e) > -mx.t)
             ctx2, rng2, _ = make_ctx(I, script=[ops.unop(I, "USub", e) for e in el])
-            out["F2"] = I.call(I.getattr(op, "calculate"), [ctx2], {})
+            out["F2"] = calc_framed(I, op, ctx2, out)
+        history(I, out, op, I.call(I.get_class(OPS + "cell." + cls), [mx], {"mask": mask} if masked else {}), rng)
         return out
 
     for cls in ("IsotropicDeformation", "AnisotropicDeformation", "ShapeDeformation"):
@@ -299,6 +345,7 @@ def build(S, tier):
                     S.prove(f"{fq}#noraise[{tag}]@{i}", False, kind="noraise", why=f"raises {p.exc!r}")
                     continue
                 v = p.value
+                frame_ob(S, fq, i, v, p, f"[{tag}]")
                 F = v["F1"]
                 ok = isinstance(F, Tensor) and F.shape == (3, 3)
                 S.prove(f"{fq}#ensures.shape_3x3[{tag}]@{i}", ok, kind="ensures", why=f"{F!r}")
